@@ -23,10 +23,39 @@ class SchemaReader:
         self.tsub = tsub or {}
         self.ver = ver
         self.depth = 0
+        self.verenv = {}
 
     def vec_items(self, n, env):
+        pn = peel_block(peel(n))
+        if pn.get("k") == "Block" and pn.get("e") is not None:
+            env = dict(env)
+            self.simulate(pn["stmts"], env)
+            pn = peel_block(peel(pn["e"]))
+        if pn.get("k") == "Var" and ("vec", pn["v"]) in env:
+            return [it for it, _ in env[("vec", pn["v"])]]
         n = self.resolve(n, env)
         k = n.get("k")
+        if k == "Call" and (callee(n) or "").endswith("::collect") and n["args"]:
+            # derive: vec![(from, to, Variant{..}), ..].into_iter().filter_map(|(f,t,x)| version in f..=t).collect()
+            inner = n
+            for _ in range(6):
+                if inner.get("k") == "Call" and inner["args"]:
+                    c0 = callee(inner) or ""
+                    if c0.endswith("box_assume_init_into_vec_unsafe") or c0.endswith("::into_vec"):
+                        break
+                    inner = peel(inner["args"][0])
+            items = self.vec_items(inner, env)
+            out = []
+            for it in items:
+                t = peel(it)
+                if t.get("k") != "Tuple" or len(t["es"]) != 3:
+                    raise Undecided("variant list entry")
+                lo, hi = self.lit(t["es"][0], env), self.lit(t["es"][1], env)
+                if lo is None or hi is None or self.ver is None:
+                    raise Undecided("variant version range")
+                if lo <= self.ver <= hi:
+                    out.append(t["es"][2])
+            return out
         if k == "Call":
             c = callee(n) or ""
             if c.endswith("box_assume_init_into_vec_unsafe") and n["args"]:
@@ -47,6 +76,43 @@ class SchemaReader:
             return n["es"]
         raise Undecided(f"vector literal not recognised ({k} {callee(n) if k == 'Call' else ''})")
 
+    def simulate(self, stmts, env):
+        """statement-level simulation of the derive's schema builder: let-bindings and conditional Vec::push sequences"""
+        for st in stmts:
+            if st["k"] == "LetS" and st["pat"].get("k") == "Bind" and st.get("init") is not None:
+                init = st["init"]
+                pi = peel_block(peel(init))
+                if pi.get("k") == "Call" and (callee(pi) or "").endswith("Vec::new"):
+                    env[("vec", st["pat"]["v"])] = []
+                if pi.get("k") == "Var" and pi["v"] in self.verenv:
+                    self.verenv[st["pat"]["v"]] = ("ver",)
+                env[st["pat"]["v"]] = init
+            elif st["k"] == "ExprS":
+                self.sim_expr(st["e"], env)
+
+    def sim_expr(self, e, env):
+        e = peel_block(e) if e.get("k") != "Block" else e
+        k = e.get("k")
+        if k == "Call" and (callee(e) or "").endswith("Vec::push") and len(e["args"]) == 2:
+            tgt = peel(e["args"][0])
+            if tgt.get("k") == "Var" and ("vec", tgt["v"]) in env:
+                env[("vec", tgt["v"])] = env[("vec", tgt["v"])] + [(e["args"][1], dict(env))]
+            return
+        if k == "If":
+            v = self.an.val(e["c"], {"$ver": self.ver, "$tsub": self.tsub, "$guards": {}, **{kk: vv for kk, vv in self.verenv.items()}})
+            c = self.an.cond(v, {"$ver": self.ver, "$guards": {}})
+            if c is None:
+                raise Undecided("version condition in schema builder not evaluable")
+            br = e["t"] if c else e.get("f")
+            if br is not None:
+                self.sim_expr(br, env)
+            return
+        if k == "Block":
+            self.simulate(e["stmts"], env)
+            if e.get("e") is not None:
+                self.sim_expr(e["e"], env)
+            return
+
     def resolve(self, n, env):
         n = peel_block(peel(n))
         seen = 0
@@ -66,7 +132,9 @@ class SchemaReader:
         if n.get("k") == "Lit" and "int" in n:
             return n["int"]
         if n.get("k") == "Cast":
-            return self.lit(n["e"], env)
+            v = self.lit(n["e"], env)
+            bits = {"u8": 8, "u16": 16, "u32": 32, "u64": 64, "usize": 64}.get(n.get("ty"))
+            return v if v is None or bits is None else v & ((1 << bits) - 1)
         v = self.an.val(n, {"$ver": self.ver, "$tsub": self.tsub, "$guards": {}})
         if v and v[0] == "int":
             return v[1]
@@ -128,9 +196,7 @@ class SchemaReader:
             raise Undecided(f"call {c}")
         if k == "Block":
             env2 = dict(env)
-            for s in n["stmts"]:
-                if s["k"] == "LetS" and s["pat"].get("k") == "Bind" and s.get("init") is not None:
-                    env2[s["pat"]["v"]] = s["init"]
+            self.simulate(n["stmts"], env2)
             if n.get("e") is None:
                 raise Undecided("block without value")
             return self.lang(n["e"], env2)
@@ -195,9 +261,23 @@ class SchemaReader:
             return ev(("N", "std::io::error::Error"))
         if v == "Struct":
             st = self.resolve(a0, env)
+            if st.get("k") == "Call" and (callee(st) or "").endswith("SchemaStruct::new_unsafe"):
+                return self.fields_lang(st["args"][1], env)
             return self.fields_lang(self.field(st, "fields"), env)
         if v == "Enum":
             en = self.resolve(a0, env)
+            if en.get("k") == "Call" and (callee(en) or "").endswith("SchemaEnum::new_unsafe"):
+                w = self.lit(en["args"][2], env)
+                if w is None:
+                    raise Undecided("discriminant_size")
+                alts = []
+                for vr in self.vec_items(en["args"][1], env):
+                    vr = self.resolve(vr, env)
+                    d = self.lit(self.field(vr, "discriminant"), env)
+                    if d is None:
+                        raise Undecided("discriminant")
+                    alts.append(seq(ev(("B", w, ("in", frozenset([d])), "LE")), self.fields_lang(self.field(vr, "fields"), env)))
+                return alt(*alts)
             w = self.lit(self.field(en, "discriminant_size"), env)
             if w is None:
                 raise Undecided("discriminant_size")
